@@ -1,5 +1,6 @@
 #!/bin/bash
-# tools/r3imp.sh <Cxx> <n> <caught-by text> : import round-3 seed n (1|2) as Cxx-(n+4) with the try_seed log line
+# ROUND=<k> tools/r3imp.sh <Cxx> <n> <caught-by text> : import round-k seed n (1|2) as Cxx-(n+2(k-1)) with the try_seed log line
 p=$1; n=$2; caught=$3
-id=$p-$((n+4))
-python3 tools/import_seed.py /tmp/${p}_work/out3/$n $id $p "$caught" "tools/try_seed.sh: $(head -c 700 /tmp/r3logs/$p-$n.log | tr '\n' ' ')"
+R=${ROUND:-3}
+id=$p-$((n+2*(R-1)))
+python3 tools/import_seed.py /tmp/${p}_work/out$R/$n $id $p "$caught" "tools/try_seed.sh: $(head -c 700 /tmp/r3logs/$p-$n.log | tr '\n' ' ')"
